@@ -46,7 +46,7 @@ def _jobs(ctx):
     q = ctx.quick()
     n = 40 if q else 500
     return (sc.corpus_job(ctx) + [(f'ops{k}', ['ops', n]) for k in range(8 if q else 12)]
-            + [(f'ship{k}', ['shipped', n]) for k in range(4 if q else 8)] + [('vacc', ['vacc', n]), ('named', ['composed', n]), ('tuples', ['tuplelabels', 6 if q else 20])])
+            + [(f'ship{k}', ['shipped', n]) for k in range(4 if q else 8)] + [('vacc', ['vacc', n]), ('named', ['composed', n]), ('tuples', ['tuplelabels', 6 if q else 20]), ('forced', ['forced', n]), ('adaptive', ['adaptive', n])])
 
 
 def _nontrivial(e):
